@@ -4,6 +4,7 @@ package c09
 
 import (
 	"fmt"
+	"strconv"
 	"strings"
 	"testing"
 
@@ -232,7 +233,18 @@ func run(c Case, mk func(cb func(k, v []byte)) runner) (log []string) {
 		log = append(log, o.Kind+" "+o.Key+" -> "+r.do(o))
 		log = append(log, "  "+r.do(Op{Kind: "stats"}))
 	}
-	for _, k := range keys {
+	probe := keys
+	if len(c.Ops) > 200 {
+		seen := map[string]bool{}
+		probe = nil
+		for _, o := range c.Ops {
+			if !seen[o.Key] && o.Key != "" {
+				seen[o.Key] = true
+				probe = append(probe, o.Key)
+			}
+		}
+	}
+	for _, k := range probe {
 		log = append(log, "final get "+k+" "+r.do(Op{Kind: "get", Key: k}))
 	}
 	log = append(log, "final "+r.do(Op{Kind: "stats"}))
@@ -424,5 +436,39 @@ func TestRegression(t *testing.T) {
 	}
 }
 
-func TestHistory(t *testing.T) { vp.Run(t, historyProp) }
+// longProp: few, long histories over a larger key space and larger bounds, so
+// that behaviour depending on how MANY entries or operations there have been
+// (growth thresholds, periodic clean-ups) is reached as well.
+var longProp = vp.Register(vp.Prop[Case]{
+	Kind: "c09.long-history", Base: 150,
+	Gen: func(t *rapid.T) Case {
+		c := Case{
+			EnableLRU: rapid.IntRange(0, 3).Draw(t, "lru") != 0,
+			MaxCount:  uint(rapid.SampledFrom([]int{0, 5, 63, 64, 65, 100}).Draw(t, "maxcount")),
+			MaxSize:   uint(rapid.SampledFrom([]int{0, 0, 200, 1000}).Draw(t, "maxsize")),
+			CbMode:    rapid.IntRange(0, 2).Draw(t, "cb"),
+		}
+		n := rapid.IntRange(300, 900).Draw(t, "n")
+		c.Ops = make([]Op, n)
+		for i := range c.Ops {
+			c.Ops[i] = Op{
+				Kind: rapid.SampledFrom([]string{"set", "set", "set", "set", "set", "get", "get", "get", "del", "stats"}).Draw(t, "kind"),
+				Key:  "k" + strconv.Itoa(rapid.IntRange(0, 149).Draw(t, "key")),
+				Val:  rapid.SliceOfN(rapid.Byte(), 0, 4).Draw(t, "val"),
+			}
+			if rapid.IntRange(0, 400).Draw(t, "clear") == 211 {
+				c.Ops[i].Kind = "clear"
+			}
+		}
+		if c.CbMode == 2 {
+			c.Script = rapid.SliceOfN(opGen, 0, 30).Draw(t, "script")
+			c.PerCb = rapid.SliceOfN(rapid.IntRange(0, 2), 0, 40).Draw(t, "percb")
+		}
+		return c
+	},
+	Check: checkHistory,
+})
+
+func TestLongHistory(t *testing.T) { vp.Run(t, longProp) }
+func TestHistory(t *testing.T)     { vp.Run(t, historyProp) }
 func TestReplay(t *testing.T)  { vp.Replay(t) }
